@@ -321,11 +321,9 @@ def rule_element_type(ck, facts, R="C16.annotation"):
     ck.rule(R, "element-type: where a walk over `Pattern` hands a sub-pattern back to itself wrapped in a new TypedPattern (from inside a closure that the walk creates per element), the type put into that TypedPattern is made for the element (the result of a call in the closure) — not the type of the enclosing pattern, which the closure can only see as a captured variable: with `let (d, e): (float, float) = ..` the elements would be typed as the whole tuple, and only annotated destructuring is affected")
     lang = facts.crate(roles.LANG)
     n = 0
+    walkers = {c.fn.path for c in cover.find_matchers(facts, roles.LANG, patcover.PAT)}
     for g in lang.fns:
-        if g.kind != "closure" or "::compiler::" not in g.path or "::test" in g.path:
-            continue
-        root = facts.fn(g.root)
-        if root is None or cover.coverage(facts, root, patcover.PAT) is None:
+        if g.kind != "closure" or "::compiler::" not in g.path or "::test" in g.path or g.root not in walkers:
             continue
         if not any((callee(t) or "") == g.root for _, t in g.calls()):
             continue
@@ -369,7 +367,7 @@ def run(ck, facts, tier):
     # calls parse_expr() must join them (shared with C04)
     from . import c04 as _c04
 
-    _c04.rule_assignment_protocol(ck, facts)
+    _c04.rule_assignment_protocol(ck, facts, only_kinds=("ParenExpr",))
     # a comment must end where the comment ends, or adding / editing one changes the program (model of the tokenizer's
     # comment combinators, shared with C13)
     from . import c13
